@@ -125,7 +125,7 @@ PROPS.update({
                        ["the MAC of the nonce managers is a parameter of the nonce theorems; harness H3 supplies the real HMAC of the decoded timestamp as an oracle entry per operation",
                         "MESSAGE-INTEGRITY verification itself is pion/stun's (exercised for real, modelled as the fact macOK)"]),
                 harnesses=["H2", "H3"]),
-    "C04": dict(h2prop(["TurnModel.Props.C04", "TurnModel.Props.C04NI", "TurnModel.Props.C04Key"], ["m:*", "pdata", "pconn", "cclose", "state", "fp"], None,
+    "C04": dict(h2prop(["TurnModel.Props.C04", "TurnModel.Props.C04NI", "TurnModel.Props.C04Key"], ["m:*", "pdata", "pconn", "cclose", "state", "fp", "aeq", "pkey"], None,
                        ["response-wrong-source", "shared-relay-port-udp4", "shared-relay-port-tcp4"],
                        ["the model's relayBusy (a relayed address held by a live allocation cannot be handed out again) is the bundled generators' duty: H8 opens real loopback "
                         "sockets through them; for TCP relay listeners it does not hold (finding F18)"]),
@@ -299,7 +299,7 @@ MANIFEST_TEXT.update({
                "nonce_long_accept_iff / nonce_long_only_minted; credential defects generated with the real stun library and both nonce managers driven under virtual time (H3) are replayed through the model.",
                "DESIGN.md §6 C03", "Lean 4 decision table + frame theorems + differential correspondence",
                "Cryptography is a parameter: the abstract credential facts are what authenticateRequest establishes."),
-    "C04": _mt("fpAddr_injective / equal_iff (the 5-tuple key of five_tuple.go is injective on addresses up to the two spellings of an IPv4 address; tied by replaying FiveTuple.Equal on ~7600 address pairs), unique_key / unique_relay (Nodup invariants over all reachable states), frame and others_cannot_touch (any history of other 5-tuples leaves an allocation identical), "
+    "C04": _mt("fpAddr_injective / equal_iff (the 5-tuple key of five_tuple.go is injective on addresses up to the two spellings of an IPv4 address; ipEqual_iff / addrEqual_iff_same_key (net.IP.Equal, hence ipnet.AddrEqual, decides the same relation); tied by replaying FiveTuple.Equal, ipnet.AddrEqual and the permission key ipnet.FingerprintAddr on ~11000 address pairs), unique_key / unique_relay (Nodup invariants over all reachable states), frame and others_cannot_touch (any history of other 5-tuples leaves an allocation identical), "
                "replies_to_sender, connbind_frame, control_close_local; noninterference / noninterference_two_runs (Goguen-Meseguer purge form, any history length): deleting every request "
                "of every other 5-tuple from a history changes neither the trace client k observes (responses, relayed data out, data indications / ChannelData in) nor k's allocation, from any "
                "two states that agree on k's view; k's own Allocate/Connect (shared ports, tokens, connection ids) are outside that theorem.",
